@@ -25,7 +25,7 @@
 (* TLC checks PacketFits, NothingLost, NoPanic and termination; all hold   *)
 (* for "asbuilt"; "unguarded" violates NoPanic and Terminates.             *)
 (***************************************************************************)
-EXTENDS Naturals, Integers, Sequences, FiniteSets
+EXTENDS PacketLayer, FiniteSets
 
 CONSTANTS Cap, Margin, Hdr,   \* scaled-down u16::MAX, safety margin, data packet header size
           Protos,             \* set of width tuples
@@ -40,14 +40,12 @@ VARIABLES w,        \* widths of the prototype
           added     \* points accepted so far
 pvars == <<w, phase, buffered, bits, packets, added>>
 
-RECURSIVE SumT(_, _)
-SumT(f, i) == IF i > Len(f) THEN 0 ELSE f[i] + SumT(f, i + 1)
-RECURSIVE Tup(_, _, _)
-Tup(Op(_), i, n) == IF i > n THEN <<>> ELSE <<Op(i)>> \o Tup(Op, i + 1, n)
+SumT(f, i) == PSum(f, i)
+Tup(Op(_), i, n) == PTup(Op, i, n)
 
 N == Len(w)
-Room == Cap - (Hdr + 2 * N) - N - Margin          \* may be negative: an integer here, a usize in the code
-MaxPP == IF SumT(w, 1) = 0 THEN 0 ELSE (Room * 8) \div SumT(w, 1)
+Room == PRoom(N, Cap, Margin, Hdr)                 \* may be negative: an integer here, a usize in the code
+MaxPP == PMaxPP(w, Cap, Margin, Hdr)
 
 Init == \E p \in Protos :
           /\ w = p /\ buffered = 0 /\ packets = <<>> /\ added = 0
@@ -64,12 +62,11 @@ PacketLen(sizes) == PadTo4(Hdr + 2 * N + SumT(sizes, 1))
 
 \* write_buffer_to_disk(last)
 WriteBuffer(last) ==
-    LET k    == IF MaxPP < buffered THEN MaxPP ELSE buffered
-        nb   == Tup(LAMBDA i : bits[i] + k * w[i], 1, N)
-        size == Tup(LAMBDA i : IF last THEN (nb[i] + 7) \div 8 ELSE nb[i] \div 8, 1, N)
+    LET k == IF MaxPP < buffered THEN MaxPP ELSE buffered
+        s == PStep(w, bits, k, last)
     IN /\ buffered' = buffered - k
-       /\ bits' = Tup(LAMBDA i : IF last THEN 0 ELSE nb[i] - 8 * size[i], 1, N)
-       /\ packets' = IF SumT(size, 1) > 0 THEN Append(packets, size) ELSE packets
+       /\ bits' = s.bits
+       /\ packets' = IF SumT(s.size, 1) > 0 THEN Append(packets, s.size) ELSE packets
 
 AddPoint == /\ phase = "adding" /\ added < MaxPts
             /\ added' = added + 1
@@ -77,11 +74,10 @@ AddPoint == /\ phase = "adding" /\ added < MaxPts
                THEN \* the point is buffered, then a packet is written
                     LET b1 == buffered + 1
                         k  == IF MaxPP < b1 THEN MaxPP ELSE b1
-                        nb == Tup(LAMBDA i : bits[i] + k * w[i], 1, N)
-                        size == Tup(LAMBDA i : nb[i] \div 8, 1, N)
+                        s  == PStep(w, bits, k, FALSE)
                     IN /\ buffered' = b1 - k
-                       /\ bits' = Tup(LAMBDA i : nb[i] - 8 * size[i], 1, N)
-                       /\ packets' = IF SumT(size, 1) > 0 THEN Append(packets, size) ELSE packets
+                       /\ bits' = s.bits
+                       /\ packets' = IF SumT(s.size, 1) > 0 THEN Append(packets, s.size) ELSE packets
                ELSE buffered' = buffered + 1 /\ UNCHANGED <<bits, packets>>
             /\ UNCHANGED <<w, phase>>
 StartFinalize == phase = "adding" /\ phase' = "finalizing" /\ UNCHANGED <<w, buffered, bits, packets, added>>
@@ -103,6 +99,8 @@ RECURSIVE StreamBytes(_, _)
 StreamBytes(i, k) == IF k > Len(packets) THEN 0 ELSE packets[k][i] + StreamBytes(i, k + 1)
 NothingLost == phase = "done" => \A i \in 1..N : StreamBytes(i, 1) = (added * w[i] + 7) \div 8
 NoPanic == phase # "panicked"
+\* the step-wise behaviour equals the closed form that Trace_E57 compares with the packets of real files
+ClosedForm == phase = "done" => packets = PPackets(w, added, Cap, Margin, Hdr)
 \* finalize returns
 Terminates == (phase = "finalizing") ~> (phase = "done")
 =============================================================================
